@@ -254,4 +254,28 @@ func recordC18(env *Env) {
 		}
 		env.emit(e)
 	}
+	// the writer of the commands (it guesses the format from the first batch) on a stream that is already finished:
+	// whatever it decides to write for an empty result (nothing, an empty compressed member) is written under the
+	// same rule.  It may leave the output unclosed: the run is observed for a moment, not until Close.
+	for _, z := range []int{0, 1} {
+		total := 0
+		for _, k := range []int{-1, 0, 7} {
+			snk := newSink()
+			snk.failAfter = k
+			f0 := fatalCount()
+			runWriterPatience("auto-fasta", []int{}, []int{}, 1, snk, z == 1, 300*time.Millisecond)
+			time.Sleep(100 * time.Millisecond)
+			snk.mu.Lock()
+			acc := len(snk.buf)
+			snk.mu.Unlock()
+			if k < 0 {
+				total = acc
+			}
+			e := ev{Op: "fault", Fmt: "auto", Z: z, Sizes: []int{}, Push: []int{}, Total: total, K: k, Accepted: acc}
+			if fatalCount() > f0 {
+				e.Fatal = 1
+			}
+			env.emit(e)
+		}
+	}
 }
